@@ -337,6 +337,10 @@ func (c *Ctx) frameObligations(st *State, fr *Frame, pos token.Pos) {
 			continue
 		}
 		if strings.HasPrefix(k, "G_") {
+			// a ghost declared `local` is bookkeeping inside one function body (set and read there only): no frame
+			if g, ok := c.V.specs.Ghosts[k[2:]]; ok && g.Local {
+				continue
+			}
 			c.oblige(st, fr, "frame", k, "", pos, eq(cur, Term{S: init, Sort: cur.Sort}), nil, "ghost variable not in modifies")
 			continue
 		}
